@@ -27,10 +27,10 @@ struct G
 {
 	std::atomic<int> mode;
 	// jitter
-	uint64_t seed;
-	double prob;
-	int max_us;
-	uint32_t pointMask;       // which point ids may be delayed (bit i = id i); 0 = all
+	std::atomic<uint64_t> seed;
+	std::atomic<uint64_t> probq;  // probability scaled to 2^53 (atomic: threads of an earlier case may still pass points)
+	std::atomic<int> max_us;
+	std::atomic<uint32_t> pointMask;  // which point ids may be delayed (bit i = id i); 0 = all
 	std::atomic<int> nextIndex;
 	// serial
 	std::mutex mu;
@@ -44,7 +44,7 @@ struct G
 	std::atomic<uint64_t> nevents;
 	std::atomic<uint64_t> ehash;
 	std::atomic<uint64_t> ndelays;
-	G() : mode(OFF), seed(1), prob(0), max_us(0), pointMask(0), nextIndex(0), current(-1), step(0), nevents(0), ehash(0), ndelays(0) {}
+	G() : mode(OFF), seed(1), probq(0), max_us(0), pointMask(0), nextIndex(0), current(-1), step(0), nevents(0), ehash(0), ndelays(0) {}
 };
 
 inline G& g() { static G x; return x; }
@@ -70,7 +70,7 @@ inline void jitter(uint64_t seed, double prob, int max_us, uint32_t pointMask = 
 {
 	G& s = g();
 	t_index = -1;
-	s.seed = seed; s.prob = prob; s.max_us = max_us; s.pointMask = pointMask; s.nextIndex = 0;
+	s.seed = seed; s.probq = (uint64_t)(prob * 9007199254740992.0); s.max_us = max_us; s.pointMask = pointMask; s.nextIndex = 0;
 	reset_trace();
 	s.mode = JITTER;
 }
@@ -180,13 +180,14 @@ inline void point(int id, const volatile void* obj)
 		uint64_t old = s.ehash.load(), nw;
 		do nw = mix64(old, (uint64_t)t_index * 64 + id); while (!s.ehash.compare_exchange_weak(old, nw));
 	}
-	if (s.pointMask && !(s.pointMask & (1u << id))) return;
-	uint64_t h = mix64(mix64(s.seed, (uint64_t)id * 1000003 + t_index), k);
-	double u = (h >> 11) * (1.0 / 9007199254740992.0);
-	if (u >= s.prob) return;
+	uint32_t pm = s.pointMask.load();
+	if (pm && !(pm & (1u << id))) return;
+	uint64_t h = mix64(mix64(s.seed.load(), (uint64_t)id * 1000003 + t_index), k);
+	if ((h >> 11) >= s.probq.load()) return;
 	s.ndelays++;
 	uint64_t h2 = mix64(h, 77);
-	int us = s.max_us > 0 ? (int)(h2 % (uint64_t)(s.max_us + 1)) : 0;
+	int mu = s.max_us.load();
+	int us = mu > 0 ? (int)(h2 % (uint64_t)(mu + 1)) : 0;
 	if (us < 2) sched_yield();
 	else {
 		struct timespec ts = {0, (long)us * 1000L};
@@ -196,4 +197,10 @@ inline void point(int id, const volatile void* obj)
 
 } // namespace sched
 
-extern "C" void asl_verif_point(int id, const volatile void* obj) { sched::point(id, obj); }
+namespace sched { static void (*extra_hook)(int, const volatile void*) = 0; }   // optional observer (e.g. C14's accept log)
+
+extern "C" void asl_verif_point(int id, const volatile void* obj)
+{
+	if (sched::extra_hook) sched::extra_hook(id, obj);
+	sched::point(id, obj);
+}
